@@ -153,6 +153,9 @@ fn record(st: &mut Stats, group: &str, key: String, r: &Rt, nbytes: usize) {
     };
     let _ = &instance;
     st.evaluations += 1;
+    if std::env::var("C04_VERBOSE").is_ok() {
+        eprintln!("{} | {} | {} | {}", key, r.kind(), nbytes, r.detail().chars().take(160).collect::<String>().replace('\n', " "));
+    }
     st.count(&format!("{}.{}", group, r.kind()));
     if matches!(r, Rt::Ok) {
         st.nontrivial(&key);
@@ -976,6 +979,115 @@ fn values_distinct_fields(st: &mut Stats) {
     }
 }
 
+// ---------------------------------------------------------------------------------------------
+// (1) every nullable offset to an array / collection in its three shapes: null, present-but-EMPTY,
+//     present-and-non-empty (a conversion that decides null-ness from emptiness is visible only on the
+//     middle one);  (2) every array counted by a 32-bit field once with more than 65535 elements (a reader
+//     or writer that narrows the count to 16 bits is visible only there).
+// ---------------------------------------------------------------------------------------------
+fn values_offset_shapes_and_big_counts(st: &mut Stats) {
+    const BIG: usize = 66_003; // > 65535 and not a multiple of anything convenient
+    // --- nullable offsets to arrays: None / Some(empty) / Some(non-empty)
+    {
+        use wt::stat::*;
+        let axes = vec![AxisRecord::new(Tag::new(b"wght"), NameId::new(256), 0), AxisRecord::new(Tag::new(b"wdth"), NameId::new(257), 1)];
+        let vals: Vec<write_fonts::OffsetMarker<AxisValue>> = vec![AxisValue::format_1(0, AxisValueTableFlags::empty(), NameId::new(258), Fixed::from_f64(400.0)).into(), AxisValue::format_3(1, AxisValueTableFlags::empty(), NameId::new(259), Fixed::from_f64(100.0), Fixed::from_f64(75.0)).into()];
+        for (shape, v) in [("none", None), ("some-empty", Some(vec![])), ("some-nonempty", Some(vals))] {
+            for (ashape, a) in [("axes", axes.clone()), ("no-axes", vec![])] {
+                let mut s = Stat::new(a, vec![], NameId::new(2));
+                s.offset_to_axis_values = v.clone().into();
+                rt_value(st, &format!("value:Stat:axis-values-{}:{}", shape, ashape), &s);
+            }
+        }
+        use wt::colr::*;
+        let base = vec![BaseGlyph::new(gid(1), 0, 1), BaseGlyph::new(gid(4), 1, 1)];
+        let layers = vec![Layer::new(gid(2), 0), Layer::new(gid(3), 1)];
+        for (bs, b) in [("none", None), ("some-empty", Some(vec![])), ("some-nonempty", Some(base))] {
+            for (ls, l) in [("none", None), ("some-empty", Some(vec![])), ("some-nonempty", Some(layers.clone()))] {
+                let nb = b.as_ref().map(|v: &Vec<BaseGlyph>| v.len()).unwrap_or(0) as u16;
+                let nl = l.as_ref().map(|v: &Vec<Layer>| v.len()).unwrap_or(0) as u16;
+                rt_value(st, &format!("value:Colr:base-{}:layers-{}", bs, ls), &Colr::new(nb, b.clone(), l.clone(), nl));
+            }
+        }
+        use wt::cpal::*;
+        for (cs, c) in [("none", None), ("some-empty", Some(vec![])), ("some-nonempty", Some(vec![ColorRecord::new(1, 2, 3, 4), ColorRecord::new(5, 6, 7, 8)]))] {
+            let mut p = Cpal::default();
+            let n = c.as_ref().map(|v: &Vec<ColorRecord>| v.len()).unwrap_or(0) as u16;
+            p.num_palette_entries = n;
+            p.num_palettes = if n > 0 { 1 } else { 0 };
+            p.num_color_records = n;
+            p.color_records_array = c.into();
+            p.color_record_indices = if n > 0 { vec![0] } else { vec![] };
+            rt_value(st, &format!("value:Cpal:color-records-{}", cs), &p);
+            // the version-1 arrays: null / empty / non-empty (non-null ones are the known CPAL finding)
+            for (k, which) in ["palette_types_array", "palette_labels_array", "palette_entry_labels_array"].iter().enumerate() {
+                let mut q = p.clone();
+                match k {
+                    0 => q.palette_types_array = Some(vec![]).into(),
+                    1 => q.palette_labels_array = Some(vec![]).into(),
+                    _ => q.palette_entry_labels_array = Some(vec![]).into(),
+                }
+                rt_value_h(st, &format!("value:Cpal:color-records-{}:{}-some-empty", cs, which), &q, &Hooks { canon: None, classify: Some(&cpal_classify) });
+            }
+        }
+    }
+    // --- arrays counted by a u32 field, once above 65535 elements
+    {
+        use wt::variations::*;
+        // DeltaSetIndexMap: the builder picks format 1 exactly when there are more than 65535 entries
+        let big: DeltaSetIndexMap = (0..BIG as u32).map(|i| i % 251).collect();
+        st.count(if matches!(big, DeltaSetIndexMap::Format1(_)) { "big.dsim-format1" } else { "big.dsim-format0(!)" });
+        rt_value(st, "value:DeltaSetIndexMap:format1:66003-entries", &big);
+        let big2: DeltaSetIndexMap = (0..BIG as u32).map(|i| ((i % 7) << 16) | (i % 65_521)).collect();
+        rt_value(st, "value:DeltaSetIndexMap:format1:66003-wide-entries", &big2);
+        rt_value(st, "value:DeltaSetIndexMap:format1:explicit-3-entries", &DeltaSetIndexMap::format_1(EntryFormat::empty(), 3, vec![0, 1, 2]));
+        let small: DeltaSetIndexMap = (0..65_535u32).map(|i| i % 3).collect();
+        rt_value(st, "value:DeltaSetIndexMap:format0:65535-entries", &small);
+        // the same behind HVAR / VVAR (advance map) and avar 2 / COLR (var index map)
+        rt_value(st, "value:Hvar:big-advance-map", &wt::hvar::Hvar::new(small_ivs(), Some(big.clone()), None, Some(small_dsim())));
+        rt_value(st, "value:Hvar:big-lsb-map", &wt::hvar::Hvar::new(small_ivs(), None, Some(big2.clone()), None));
+        rt_value(st, "value:Vvar:big-advance-map", &wt::vvar::Vvar::new(small_ivs(), Some(big.clone()), None, None, Some(big2.clone())));
+        let mut c = wt::colr::Colr::new(0, None, None, 0);
+        c.var_index_map = Some(big.clone()).into();
+        c.item_variation_store = Some(small_ivs()).into();
+        rt_value(st, "value:Colr:big-var-index-map", &c);
+    }
+    {
+        use wt::cmap::*;
+        let n = BIG;
+        let groups: Vec<SequentialMapGroup> = (0..n as u32).map(|i| SequentialMapGroup::new(3 * i, 3 * i + 1, i % 60_000)).collect();
+        rt_value(st, "value:Cmap12:66003-groups", &Cmap12::new(7, groups.clone()));
+        rt_value(st, "value:Cmap8:66003-groups", &Cmap8::new(16 + 8192 + 12 * n as u32, 0, vec![0u8; 8192], n as u32, groups));
+        let cgroups: Vec<ConstantMapGroup> = (0..n as u32).map(|i| ConstantMapGroup::new(2 * i, 2 * i + 1, i % 7)).collect();
+        rt_value(st, "value:Cmap13:66003-groups", &Cmap13::new(16 + 12 * n as u32, 0, n as u32, cgroups));
+        let ids: Vec<u16> = (0..n).map(|i| (i % 65_000) as u16).collect();
+        rt_value(st, "value:Cmap10:66003-chars", &Cmap10::new(20 + 2 * n as u32, 0, 0x10000, n as u32, ids));
+        let ranges: Vec<UnicodeRange> = (0..n as u32).map(|i| UnicodeRange::new(Uint24::new(4 * i), (i % 3) as u8)).collect();
+        rt_value(st, "value:DefaultUvs:66003-ranges", &DefaultUvs::new(n as u32, ranges));
+        let maps: Vec<UvsMapping> = (0..n as u32).map(|i| UvsMapping::new(Uint24::new(i), (i % 65_000) as u16)).collect();
+        rt_value(st, "value:NonDefaultUvs:66003-mappings", &NonDefaultUvs::new(n as u32, maps));
+    }
+    {
+        use wt::colr::*;
+        let n = BIG;
+        // the paints / boxes are all equal, so the object graph stays tiny (shared children)
+        let paint = || Paint::solid(1, F2Dot14::from_f32(1.0));
+        let recs: Vec<BaseGlyphPaint> = (0..n).map(|i| BaseGlyphPaint::new(gid((i % 65_000) as u16), paint())).collect();
+        rt_value(st, "value:BaseGlyphList:66003-records", &BaseGlyphList::new(n as u32, recs));
+        rt_value(st, "value:LayerList:66003-paints", &LayerList::new(n as u32, (0..n).map(|_| paint()).collect()));
+        let clips: Vec<Clip> = (0..n).map(|i| Clip::new(gid((i % 65_000) as u16), gid((i % 65_000) as u16), ClipBox::format_1(FWord::new(0), FWord::new(0), FWord::new(10), FWord::new(10)))).collect();
+        rt_value(st, "value:ClipList:66003-clips", &ClipList::new(1, n as u32, clips));
+    }
+    {
+        use wt::layout::*;
+        let recs: Vec<FeatureVariationRecord> = (0..BIG).map(|_| FeatureVariationRecord::new(None, None)).collect();
+        rt_value(st, "value:FeatureVariations:66003-records", &FeatureVariations::new(recs));
+        use wt::meta::*;
+        let maps: Vec<DataMapRecord> = (0..BIG).map(|i| DataMapRecord::new(Tag::new(&[b'a' + (i % 26) as u8, b'a' + ((i / 26) % 26) as u8, b'a' + ((i / 676) % 26) as u8, b'a' + ((i / 17_576) % 26) as u8]), Metadata::Other(vec![7]))).collect();
+        rt_value(st, "value:Meta:66003-data-maps", &Meta::new(maps));
+    }
+}
+
 fn values_misc(st: &mut Stats, rng: &mut Rng) {
     // maxp 0.5 / 1.0
     {
@@ -1496,6 +1608,7 @@ fn main() {
     values_handwritten_conversions(&mut st);
     values_devices(&mut st, &mut rng);
     values_distinct_fields(&mut st);
+    values_offset_shapes_and_big_counts(&mut st);
     shards(&mut st, &mut cw, &mut rng, thorough);
     let shards = cw.finish();
     let _ = &mut cw;
